@@ -141,6 +141,18 @@ pub fn c16(ctx: &Ctx) -> (CheckMeta, Outcome) {
         malformed.push(format!("{})", n));
         malformed.push(format!("{})3", n));
     }
+    // multi-byte characters at every byte offset modulo their width, with and without a parameter
+    // (an error path that cuts the text at a fixed byte offset must not split a character)
+    for shift in 0..4usize {
+        for ch in ["é", "€", "\u{1F600}"] {
+            let body = ch.repeat(70);
+            let name = format!("{}{}", "x".repeat(shift), body);
+            malformed.push(name.clone());
+            malformed.push(format!("{}(3)", name));
+            malformed.push(format!("{}()", name));
+            malformed.push(format!("Zeta({})", name));
+        }
+    }
     // long and non-ASCII texts (error paths that quote the input must not panic)
     for n in [31usize, 32, 33, 40, 64, 200] {
         malformed.push("x".repeat(n));
@@ -173,9 +185,23 @@ pub fn c16(ctx: &Ctx) -> (CheckMeta, Outcome) {
             (false, Err(_)) => {}
         }
     }
-    for id in [usize::MAX, 1 << 20, 51, 52] {
-        if Codes::from_code_const(id).is_ok() {
-            out.violations.push(v("C16", "ids", "range".into(), "from_code_const", "no-error", format!("out-of-range identifier {} accepted", id), json!({"kind": "id", "id": id})));
+    // out-of-range identifiers: everything up to 70 000, and 0..=60 above every power of two (an
+    // identifier reduced modulo a table size would come back as a code)
+    let mut far: Vec<usize> = (81..=70_000usize).collect();
+    for k in 8..usize::BITS {
+        for j in 0..=60usize {
+            far.push((1usize << k).wrapping_add(j));
+        }
+    }
+    far.extend([usize::MAX, usize::MAX - 1, usize::MAX - 50, usize::MAX / 2, usize::MAX / 2 + 1]);
+    let mut reported = 0;
+    for id in far {
+        out.cov.evaluations += 1;
+        if let Ok(c) = Codes::from_code_const(id) {
+            reported += 1;
+            if reported <= 5 {
+                out.violations.push(v("C16", "ids", "range".into(), "from_code_const", "no-error", format!("out-of-range identifier {} accepted as {:?}", id, c), json!({"kind": "id", "id": id})));
+            }
         }
     }
     // (4) to_code_const then from_code_const gives identical codewords
@@ -223,7 +249,7 @@ fn c16_meta() -> CheckMeta {
     CheckMeta {
         property: "C16".into(),
         level: "exploration".into(),
-        rule: "complete enumeration: (1) every Codes variant x parameter 0..=64, 1000, 65536, 2^31, usize::MAX: parse(to_string(c)) is structurally c (Debug), also when formatted with a width/alignment ({:4}, {:>12}, {:<12}, {:^15}; outer padding trimmed); (2) a grammar of malformed texts (13 non-names x {none,(3),(),(x)}; 5 parametric names x {missing, (), (x), (-1), (1.5), overflowing, (0x10)}; every valid text with 11 prefixes (x, space, ::, Foo::, Codes::, ...) and its name with 5 suffixes; ')' in the place of '('; long (31..200 bytes) and non-ASCII texts) must be Err, never a code, never a panic; (3) identifiers 0..=50 map to a code that maps back to the same identifier, 51..=80, 2^20, usize::MAX are Err; (4) to_code_const then from_code_const gives identical codewords (14-value grid, both endiannesses) for every variant with parameter 0..=16; (5) all pairs of those codes that compare == but are structurally different write identical bytes; non-trivial = parametric or malformed case".into(),
+        rule: "complete enumeration: (1) every Codes variant x parameter 0..=64, 1000, 65536, 2^31, usize::MAX: parse(to_string(c)) is structurally c (Debug), also when formatted with a width/alignment ({:4}, {:>12}, {:<12}, {:^15}; outer padding trimmed); (2) a grammar of malformed texts (13 non-names x {none,(3),(),(x)}; 5 parametric names x {missing, (), (x), (-1), (1.5), overflowing, (0x10)}; every valid text with 11 prefixes (x, space, ::, Foo::, Codes::, ...) and its name with 5 suffixes; ')' in the place of '('; long (31..200 bytes) and non-ASCII texts, 2/3/4-byte characters at every byte offset modulo their width) must be Err, never a code, never a panic; (3) identifiers 0..=50 map to a code that maps back to the same identifier, 51..=70 000, 2^k+0..60 for every k >= 8 and the neighbourhood of usize::MAX are Err; (4) to_code_const then from_code_const gives identical codewords (14-value grid, both endiannesses) for every variant with parameter 0..=16; (5) all pairs of those codes that compare == but are structurally different write identical bytes; non-trivial = parametric or malformed case".into(),
         assumptions: vec!["trailing text after a valid parameter and a parameter on a parameterless name are not constrained (the property does not mention them)".into()],
     }
 }
@@ -245,6 +271,14 @@ macro_rules! zigzag_check {
                 let want: $U = if x >= 0 { (x as $U) << 1 } else { (((!x) as $U) << 1) | 1 };
                 if nat != want {
                     $out.violations.push(v("C17", "zigzag", $name.into(), "to_nat", "value", format!("{}::to_nat({}) = {} expected {}", $name, x, nat, want), json!({"kind": "none"})));
+                    break;
+                }
+                // the same conversions called on references (method resolution reaches them through
+                // auto-deref today; an implementation for reference types would be picked first)
+                let rx: &$I = &x;
+                let rnat: &$U = &nat;
+                if rx.to_nat() != want || rnat.to_int() != x {
+                    $out.violations.push(v("C17", "zigzag", $name.into(), "to_nat", "value", format!("called on a reference: (&{}).to_nat() = {}, (&{}).to_int() = {}", x, rx.to_nat(), nat, rnat.to_int()), json!({"kind": "none"})));
                     break;
                 }
                 let back: $I = nat.to_int();
@@ -479,6 +513,19 @@ pub fn c18(ctx: &Ctx) -> (CheckMeta, Outcome) {
                             fail = Some(format!("vbyte_read_{} of {} gave {:?} at position {}", name, crate::util::hex(&want), r.ok(), cur.position()));
                         } else if rg.ok() != Some(x) {
                             fail = Some(format!("generic vbyte_read::<{}> of {} is wrong", name, crate::util::hex(&want)));
+                        }
+                    }
+                    // a source that ENDS inside the codeword (every proper prefix, the empty one included): the
+                    // string is not terminated, so nothing may be returned as its value
+                    if fail.is_none() {
+                        for cut in 0..want.len() {
+                            let mut cur = std::io::Cursor::new(&want[..cut]);
+                            let r = if big { vbyte_read_be(&mut cur) } else { vbyte_read_le(&mut cur) };
+                            out.cov.evaluations += 1;
+                            if let Ok(y) = r {
+                                fail = Some(format!("vbyte_read_{} of the unterminated string {} (the first {} of {} bytes of the codeword of {}) returned {}", name, crate::util::hex(&want[..cut]), cut, want.len(), x, y));
+                                break;
+                            }
                         }
                     }
                     // a source / sink that answers ErrorKind::Interrupted once, before byte j of the codeword
@@ -762,7 +809,7 @@ pub fn c18(ctx: &Ctx) -> (CheckMeta, Outcome) {
     let meta = CheckMeta {
         property: "C18".into(),
         level: "exploration".into(),
-        rule: "(1) every value below 2^21, every length-step boundary +-2 up to 10 bytes, 2^64-1 and seeded values: vbyte_write_be/le and the generic vbyte_write::<E> vs the reference (offset definition of the complete code), returned length, byte_len_vbyte/bit_len_vbyte, vbyte_read_* inversion and bytes consumed, also into a sink that accepts 3 bytes per call and from a source that yields one byte per call, and from/into a source/sink that answers ErrorKind::Interrupted once before byte j for every j (a reported error is accepted, a wrong result is not); (2) bit-stream write_vbyte_be/le at byte-aligned positions (0, 1, 3 leading bytes) for both stream endiannesses and every writer word 8..128 vs the io functions, read back with the bit-stream trait; bit-stream codes ending with the last byte of a strict stream (every reader kind); (3) completeness: ALL 2 113 664 terminated byte strings of length <= 3 and all 268 435 456 of length 4 (thorough: also all 2^35 of length 5) (both variants) and 200 000 seeded longer ones decode to a value whose encoding is the same string (hence distinct strings <-> distinct values); non-trivial = multi-byte".into(),
+        rule: "(1) every value below 2^21, every length-step boundary +-2 up to 10 bytes, 2^64-1 and seeded values: vbyte_write_be/le and the generic vbyte_write::<E> vs the reference (offset definition of the complete code), returned length, byte_len_vbyte/bit_len_vbyte, vbyte_read_* inversion and bytes consumed, also into a sink that accepts 3 bytes per call and from a source that yields one byte per call, and from/into a source/sink that answers ErrorKind::Interrupted once before byte j for every j (a reported error is accepted, a wrong result is not), and from sources that end inside the codeword (every proper prefix must be an error); the value set includes every 7-bit group of every codeword length on its own and in pairs with different patterns; (2) bit-stream write_vbyte_be/le at byte-aligned positions (0, 1, 3 leading bytes) for both stream endiannesses and every writer word 8..128 vs the io functions, read back with the bit-stream trait; bit-stream codes ending with the last byte of a strict stream (every reader kind); (3) completeness: ALL 2 113 664 terminated byte strings of length <= 3 and all 268 435 456 of length 4 (thorough: also all 2^35 of length 5) (both variants) and 200 000 seeded longer ones decode to a value whose encoding is the same string (hence distinct strings <-> distinct values); non-trivial = multi-byte".into(),
         assumptions: vec![],
     };
     (meta, out)
